@@ -1,6 +1,6 @@
 From Coq Require Import ZArith List Bool Reals Lra.
 From Flocq Require Import Core BinarySingleNaN.
-Require Import GV.FloatBase GV.FloatLemmas GV.AngleM GV.AngleProofs GV.GeonumM GV.GeonumProofs GV.TraitsM GV.TraitsProofs GV.BoundProofs GV.NewProofs GV.CtorProofs GV.ClosureProofs GV.PiBounds GV.TrigProofs GV.DotValue GV.ProdProofs GV.SumUpper GV.DistValue GV.FieldProofs GV.DirProofs GV.SumDir GV.SnellProofs.
+Require Import GV.FloatBase GV.FloatLemmas GV.AngleM GV.AngleProofs GV.GeonumM GV.GeonumProofs GV.TraitsM GV.TraitsProofs GV.BoundProofs GV.NewProofs GV.CtorProofs GV.ClosureProofs GV.PiBounds GV.TrigProofs GV.DotValue GV.ProdProofs GV.SumUpper GV.DistValue GV.FieldProofs GV.DirProofs GV.SumDir GV.SnellProofs GV.Poynting.
 Import ListNotations.
 Open Scope R_scope.
 Require Import GV.Properties.C19.
@@ -60,3 +60,14 @@ Check C19_snell : forall (L : libm) (u ua : R) g ri, sin_acc L u -> u <= / 1000 
   Rabs (sin (dirR (ang r)) - sin (dir (ang g)) / R_ (mag ri))
     <= ua + R_ eps10 + 3 / 100000000000000 + (u + 3 / 1000000000000000) / R_ (mag ri).
 Print Assumptions C19_snell.
+Check C19_poynting_value : forall (L : libm) (u : R) a b, sin_acc L u -> u <= / 1000 ->
+  canonp (rem (ang a)) -> canonp (rem (ang b)) -> (0 <= blade (ang a))%Z -> (0 <= blade (ang b))%Z ->
+  fin (mag (wedge L a b)) -> fin (mag (poynting_vector L a b)) ->
+  let mu := R_ VACUUM_PERMEABILITY in
+  let X := R_ (mag a) * R_ (mag b) * Rabs (sin (dir (ang b) - dir (ang a))) in
+  let B := Rabs (R_ (mag a) * R_ (mag b)) * (u + 10002 / 100000000000000) + bpow radix2 (-1073) in
+  ang (poynting_vector L a b) = ang (wedge L a b) /\
+  Rabs (R_ (mag (poynting_vector L a b)) - X / mu) <= (B + / 9007199254740992 * (Rabs X + B)) / mu + bpow radix2 (-1075).
+Print Assumptions C19_poynting_value.
+Check C19_mu0_value : fin VACUUM_PERMEABILITY /\ R_ VACUUM_PERMEABILITY = 5934300740056779 * / 4722366482869645213696.
+Print Assumptions C19_mu0_value.
